@@ -507,6 +507,16 @@ fn base_case(rng: &mut Rng) -> (InstSpec, Option<Vec<u64>>) {
             v.bound = Some((F(l), F(u)));
         }
     }
+    // the two semi kinds (a value is 0 or inside the bound): bounds that exclude 0 are their ordinary case
+    for v in &mut inst.vars {
+        if v.kind != 1 && rng.chance(1, 6) {
+            v.kind = 4 + rng.below(2) as i32;
+            if rng.chance(2, 3) {
+                let (l, u) = *rng.pick(&[(2.0, 5.0), (-3.0, -1.0), (0.5, 0.5), (1.0, f64::INFINITY), (f64::NEG_INFINITY, -2.5), (-1.0, 4.0)]);
+                v.bound = Some((F(l), F(u)));
+            }
+        }
+    }
     // corners of "valid bound": signed zeros at either end (0.0 <= -0.0 holds), a one-point subnormal interval,
     // ends at the edge of the finite range
     for v in &mut inst.vars {
